@@ -13,7 +13,7 @@ Toks == { MLit("x "), MLit("-"), MTok("a", "", ""), MTok("a", " ", "\t"), MTok("
 Perms == { ("a" :> "VA") @@ ("b" :> "VB"),
            ("a" :> "{{matrix.b}}") @@ ("b" :> "VB"),              \* a value that itself looks like a token
            ("a" :> "{{ matrix.a }}") @@ ("b" :> ""),
-           ("" :> "ANON"), ("" :> "{{matrix}}"),
+           ("" :> "ANON"), ("" :> "{{matrix}}"), ("" :> "$HOME/bin${1}$$"),
            ("a.b" :> "DOT") @@ ("a-b" :> "DASH") @@ ("_" :> "US") }
 Classes == {"command", "label", "key", "envname", "envval", "pluginsrc", "plugincfgkey", "plugincfgval", "unkkey", "unkval",
             "matrixval", "adjwith", "sigvalue"}
